@@ -53,7 +53,13 @@ def make_filter(filters):
     if len(names) == 1 and style < 3:
         return ready_operations_filter_factory([names[0], enums[0], funcs[0]][style])
     if style == 0:
-        return create_composite_operation_filter(names)
+        # the caller keeps using its list afterwards (here: to configure a second, stricter filter): the first
+        # composite is what it was created as
+        mine = list(names)
+        f = create_composite_operation_filter(mine)
+        mine.append(FILTER_NAMES[(filters[0] + 1) % len(FILTER_NAMES)])
+        del mine[0]
+        return f
     if style == 1:
         return create_composite_operation_filter(tuple(enums))
     if style == 2:
